@@ -173,6 +173,8 @@ struct Ctx {
   uint32_t cur_piece_idx[4] = {0, 0, 0, 0};
   uint32_t cur_piece_off[4] = {0, 0, 0, 0};
   std::string completed;          // completed bitfield as last seen (public API)
+  uint32_t filler = 0;            // SocketManager::add_unmanaged_socket() calls to undo
+  std::set<uint32_t> hashing;     // pieces seen in the hash queue
 };
 
 static int harness_sockets(Ctx& c) {
@@ -254,7 +256,7 @@ static std::string row(Ctx& c, SPeer& p, const KernelView& kv, bool remember_fd)
     size_t tr = rl->queued_size() + rl->unordered_size() + rl->stalled_size() + rl->choked_size() + (rl->transfer() != nullptr ? 1 : 0);
     bool px = !pcb->m_extensions->is_default() && pcb->m_extensions->is_local_enabled(torrent::ProtocolExtension::UT_PEX);
     o << "C:pe" << (pcb->is_polling() ? 1 : 0)
-      << ",ui" << pcb->m_up_choke.queued() << ",uu" << pcb->m_up_choke.unchoked()
+      << ",ui" << pcb->m_up_choke.queued() << ",uu" << pcb->m_up_choke.unchoked() << ",us" << pcb->m_up_choke.snubbed()
       << ",di" << pcb->m_down_choke.queued() << ",du" << pcb->m_down_choke.unchoked()
       << ",px" << px
       << ",tu" << pcb->m_up->throttle()->is_throttled(pcb->m_peer_chunks.upload_throttle())
@@ -270,6 +272,14 @@ static std::string row(Ctx& c, SPeer& p, const KernelView& kv, bool remember_fd)
     o << "N;pi=" << pi_str(c, p) << "~ke0";
   }
   return o.str();
+}
+
+static torrent::download_data* hq_id(Torrent* T) { return const_cast<torrent::download_data*>(T->dl.data()); }
+static int hash_queue_count(Ctx& c) {
+  int n = 0;
+  for (uint32_t i = 0; i < c.T->piece_count(); i++)
+    if (torrent::ThreadMain::thread_main()->hash_queue()->has(hq_id(c.T), i)) n++;
+  return n;
 }
 
 // Global counters.  Torrent level (0 once the torrent is removed) then session level.
@@ -290,15 +300,18 @@ static std::string glob(Ctx& c, const KernelView& kv) {
       for (auto& b : *l) bt += b.queued()->size() + b.transfers()->size();
     size_t bf = finished_leaders(c, nullptr);
     bt -= bf;
+    // a piece whose last block arrived waits in the hash queue with one chunk reference until the verdict (or close) comes
+    int hqn = hash_queue_count(c);
+    refs -= hqn;
     o << "cn" << c.T->dl.connection_list()->size() << ",hs" << hm()->size()
       << ",uu" << m->info()->upload_unchoked() << ",du" << m->info()->download_unchoked()
       << ",geu" << m->up_group_entry()->unchoked()->size() << "/" << m->up_group_entry()->queued()->size()
       << ",ged" << m->down_group_entry()->unchoked()->size() << "/" << m->down_group_entry()->queued()->size()
       << ",px" << m->info()->size_pex()
       << ",cr" << refs << ",cw" << wr << ",cb" << bl
-      << ",tl" << m->delegator()->transfer_list()->size() << ",bt" << bt << ",bf" << bf;
+      << ",tl" << m->delegator()->transfer_list()->size() << ",bt" << bt << ",bf" << bf << ",hq" << hqn;
   } else {
-    o << "cn0,hs" << hm()->size() << ",uu0,du0,geu0/0,ged0/0,px0,cr0,cw0,cb0,tl0,bt0,bf0";
+    o << "cn0,hs" << hm()->size() << ",uu0,du0,geu0/0,ged0/0,px0,cr0,cw0,cb0,tl0,bt0,bf0,hq0";
   }
   o << ",cqu" << cg->up_queue()->size_unchoked() << "/" << cg->up_queue()->size_queued()
     << ",cqd" << cg->down_queue()->size_unchoked() << "/" << cg->down_queue()->size_queued()
@@ -374,6 +387,11 @@ static void parse_wire(Ctx& c) {
     }
   }
   if (!c.removed) {
+    for (uint32_t i = 0; i < c.T->piece_count(); i++)
+      if (!c.hashing.count(i) && torrent::ThreadMain::thread_main()->hash_queue()->has(hq_id(c.T), i)) {
+        c.hashing.insert(i);
+        c.ev.push_back("Q:" + std::to_string(i));    // the piece's chunk handle is held by the hash queue
+      }
     std::string bits = c.T->completed_bits();
     if (c.completed.size() == bits.size())
       for (size_t i = 0; i < bits.size(); i++)
@@ -435,7 +453,6 @@ static void pump_all(Ctx& c) {
   parse_wire(c);
 }
 
-static torrent::download_data* hq_id(Torrent* T) { return const_cast<torrent::download_data*>(T->dl.data()); }
 static void wait_hash(Ctx& c) {
   Torrent* T = c.T;
   c.S->settle([T]() { return !torrent::ThreadMain::thread_main()->hash_queue()->has(hq_id(T)); }, 10000);
@@ -516,6 +533,17 @@ static bool make_scenario(const std::string& name, Scenario& s) {
     s.maxconn = 1;
     s.steps = {A(0, "max"), A(0, "conn"), B(0, "hsa", 60), A(1, "conn"), B(1, "hsa", 60), B(0, "hsb", 8), B(0, "bf0", 6),
                B(1, "hsb", 8), B(1, "bf0", 6), A(2, "conn"), B(2, "hs", 68), B(0, "in", 5)};
+  } else if (name == "snub" || name == "snub2") {
+    // the client snubs an interested (unchoked) peer -- and lifts the snub again in snub2 -- before the fault
+    s.have = std::string(NP, '1');
+    s.steps = {A(0, "conn"), B(0, "hs", 68), B(0, "bf0", 6), B(0, "in", 5), A(0, "snub")};
+    if (name == "snub2") s.steps.push_back(A(0, "unsnub"));
+    s.steps.push_back(B(0, "ka", 4));
+    s.steps.push_back(B(0, "ni", 5));
+  } else if (name == "sockfull") {
+    // incoming connection while the socket budget is exhausted: refused at accept, the descriptor must be closed at once
+    s.have = std::string(NP, '1');
+    s.steps = {A(0, "sockmax"), A(0, "conn"), B(0, "hs", 68)};
   } else if (name == "hfail") {
     // incoming handshake from an address whose PeerInfo has failed_counter > HandshakeManager::max_failed:
     // the handshake is dropped right after the peer id was read (PeerList::connected already set flag_connected)
@@ -628,6 +656,17 @@ static bool do_action(Ctx& c, const Step& st) {
     pi->set_failed_counter(torrent::HandshakeManager::max_failed + 1);
     c.T->dl.peer_list()->disconnected(pi, 0);
     c.ev.push_back("A" + std::to_string(p.id) + ":failpi");
+  } else if (st.kind == "snub" || st.kind == "unsnub") {
+    torrent::PeerConnectionBase* pcb = c.S->find_connection(c.T, p.ip, p.port);
+    if (pcb != nullptr) {
+      c.S->force_choke(pcb, st.kind == "snub");     // Peer::set_snubbed
+      c.ev.push_back("A" + std::to_string(p.id) + ":" + st.kind);
+      pump_all(c);
+    }
+  } else if (st.kind == "sockmax") {
+    auto* sm = torrent::runtime::socket_manager();
+    while (sm->size() < sm->max_size()) { sm->add_unmanaged_socket(); c.filler++; }
+    c.ev.push_back("A:sockmax");
   } else if (st.kind == "dlimit") {
     torrent::down_throttle_global()->set_max_rate(1000);
     c.ev.push_back("A:dlimit");
@@ -722,7 +761,7 @@ static bool all_zero_glob(const std::string& g, std::string& why) {
         if (a == std::string::npos || (a2 != std::string::npos && a2 > a)) a = a2;
         why = s.substr(a == std::string::npos ? 0 : a + 1, q - (a == std::string::npos ? 0 : a + 1));
         // tl = pieces with partial data kept in the TransferList: retained by design until close(), no transfers attached (bt)
-        if (why.compare(0, 2, "tl") == 0 || why.compare(0, 2, "bf") == 0) { p = q; continue; }
+        if (why.compare(0, 2, "tl") == 0 || why.compare(0, 2, "bf") == 0 || why.compare(0, 2, "hq") == 0) { p = q; continue; }
         return false;
       }
       p = q;
@@ -842,7 +881,8 @@ static std::string run_case(const std::string& line) {
 
   // ---- scripted session up to the cut
   uint32_t consumed = 0;
-  bool stopped = false;
+  bool stopped = false, no_drain_hit = false;
+  bool nowait = kv.count("nw") && kv["nw"] == "1";
   for (auto& st : sc.steps) {
     if (st.type == 'A') {
       if (!do_action(c, st)) return "ERR:action " + st.kind;
@@ -871,6 +911,24 @@ static std::string run_case(const std::string& line) {
       if (st.kind == "hsa") len = 68;
       size_t pos = c.ev.size();
       consumed += allow;
+      bool last_block_no_drain = nowait && allow == bytes.size() && consumed == cut &&
+                                 (st.kind == "pc" || st.kind == "pr" || st.kind == "bad");
+      if (last_block_no_drain) {
+        // fault point: the block has been read off the socket (poll only), the main thread has NOT yet drained its
+        // callbacks, so a piece completed by this block still sits in the hash queue when the fault hits
+        auto* m = torrent::ThreadMain::thread_main();
+        for (int i = 0; i < 200; i++) {
+          p.w.flush();
+          m->set_cached_time(std::chrono::microseconds(S.now_us()));
+          m->m_poll->do_poll(std::chrono::microseconds(0));
+          if (hash_queue_count(c) > 0) break;
+          if (i > 20 && p.w.tx_pending.empty() && !lib_has_unread(c)) break;
+          usleep(200);
+        }
+        for (auto& q : c.peers) if (q->w.fd != -1) q->w.recv_available();
+        parse_wire(c);
+        no_drain_hit = hash_queue_count(c) > 0;
+      } else
       pump_all(c);
       if (st.kind == "pc" || st.kind == "pp" || st.kind == "bad" || st.kind == "pr") {
         // under a rate limit the library may have left part of the block in its socket's receive queue
@@ -879,15 +937,22 @@ static std::string run_case(const std::string& line) {
       }
       c.ev.insert(c.ev.begin() + pos, "B" + std::to_string(p.id) + ":" + kind + ":" + std::to_string(n) + "/" + std::to_string(len));
     }
-    if (st.kind == "pc" || st.kind == "pr" || st.kind == "bad") wait_hash(c);
+    if ((st.kind == "pc" || st.kind == "pr" || st.kind == "bad") && !no_drain_hit) wait_hash(c);
     if (allow < bytes.size()) { stopped = true; break; }
+    if (no_drain_hit) break;
   }
   (void)stopped;
-  pump_all(c);
+  if (!no_drain_hit) pump_all(c);
   for (auto& p : c.peers)
     if (p->w.fd != -1 && p->w.eof) c.ev.push_back("E" + std::to_string(p->id));   // the library hung up on the peer
 
   std::string pre = ledger(c, true);
+  // a peer the library holds nothing for any more must have seen its connection closed (a descriptor kept open outside
+  // every table shows up exactly like this: no row, but the remote never gets EOF)
+  for (auto& p : c.peers)
+    if (p->connected_h && !p->outgoing && p->w.fd != -1 && !p->w.eof && p->port != 0 &&
+        c.S->find_connection(c.T, p->ip, p->port) == nullptr && find_handshake(p->ip, p->port) == nullptr)
+      c.viol.push_back("remote-never-saw-close:p" + std::to_string(p->id));
   if ((int)c.T->main()->info()->size_pex() != live_pex_holders(c)) {
     // a PEX slot is counted that no live handshake or connection holds: it can never be given back
     std::string out = "ev=";
@@ -1006,6 +1071,7 @@ static std::string run_case(const std::string& line) {
   }
 
   // ---- restart and finish / serve with a healthy peer
+  for (; c.filler > 0; c.filler--) torrent::runtime::socket_manager()->remove_unmanaged_socket();
   Session::clear_io_limits();
   torrent::down_throttle_global()->set_max_rate(0);
   torrent::up_throttle_global()->set_max_rate(0);
